@@ -554,6 +554,9 @@ func genC13Merge(t *rapid.T) TextCase {
 // ---- byte level: mutations of valid texts and hostile constants
 
 var hostileTexts = []string{
+	"^ {\"Version\":\"2\"}\n@ []\n+ 1\n", "^ {\"Version\":null}\n@ []\n+ 1\n", "^ {\"Version\":[2]}\n@ []\n+ 1\n", "^ {\"Version\":2}\n@ []\n+ 1\n", "^ {\"Merge\":\"yes\"}\n@ []\n+ 1\n", "^ {\"Merge\":null}\n@ []\n+ 1\n",
+	"^ {\"Merge\":[true]}\n@ []\n+ 1\n", "^ {\"setkeys\":\"id\"}\n@ []\n+ 1\n", "^ {\"setkeys\":[1]}\n@ []\n+ 1\n", "^ {\"SetKeys\":[\"id\"]}\n@ []\n+ 1\n", "^ {\"Set\":true}\n@ []\n+ 1\n", "^ {\"Set\":1,\"MultiSet\":\"x\"}\n@ []\n+ 1\n",
+	"^ {\"Color\":1}\n@ []\n+ 1\n", "^ {\"Precision\":\"0.1\"}\n@ []\n+ 1\n", "^ {\"Precision\":null}\n@ []\n+ 1\n", "^ [\"Merge\"]\n@ []\n+ 1\n", "^ \"Merge\"\n@ []\n+ 1\n", "^ 1\n@ []\n+ 1\n", "^ null\n@ []\n+ 1\n",
 	"", " ", "\n", "@", "@ ", "@ [", "@ []", "@ []\n", "@ [0]\n", "@ [0]\n[\n", "@ [0]\n]\n", "@ [0]\n- 1\n]\n]\n", "^", "^ {}", "^ {\"Merge\":true}", "^ {\"Merge\":1}\n@ []\n+ 1\n",
 	"^ {\"Merge\":true}\n^ {\"Merge\":false}\n@ [\"a\"]\n+ 1\n", "@ [-1]\n+ 1\n", "@ [-2]\n+ 1\n", "@ [1e30]\n- 1\n", "@ [0.5]\n+ 1\n", "@ [{}]\n- 1\n", "@ [[]]\n+ 1\n", "@ [[1]]\n+ 1\n",
 	"@ [[{\"a\":1}]]\n+ 1\n", "@ [[{\"a\":1}],\"b\"]\n+ 1\n", "@ [{\"a\":1}]\n+ 1\n", "@ [null]\n+ 1\n", "@ [true]\n+ 1\n", "@ \"a\"\n+ 1\n", "@ {}\n+ 1\n", "@ [0,0,0,0,0,0,0,0,0,0,0,0,0,0,0,0,0]\n+ 1\n",
@@ -763,7 +766,7 @@ func firstLines(s string, n int) string {
 func genC13CLI(t *rapid.T) CLICrashCase {
 	c := CLICrashCase{Bin: gen.Pick(t, "bin", []string{"jd-v2", "jd-top"})}
 	v1 := false // the v1 library (-v2=false) is outside this property's anchors
-	mode := gen.Pick(t, "mode", []string{"diff", "patch", "patch", "patch", "translate"})
+	mode := gen.Pick(t, "mode", []string{"diff", "patch", "patch", "translate", "translate"})
 	yaml := gen.Chance(t, "yaml", 20)
 	doc := func() string {
 		tc := genC13Bytes(t)
@@ -870,9 +873,13 @@ func genC13CLI(t *rapid.T) CLICrashCase {
 			c.Args = append(flags, "f1", "f2")
 		}
 	default:
-		tr := gen.Pick(t, "tr", []string{"jd2patch", "patch2jd", "jd2merge", "merge2jd", "json2yaml", "yaml2json", "jd2jd", "bogus"})
+		tr := gen.Pick(t, "tr", []string{"jd2patch", "jd2patch", "jd2patch", "patch2jd", "jd2merge", "jd2merge", "merge2jd", "json2yaml", "yaml2json", "jd2jd", "bogus"})
 		var tc TextCase
 		switch {
+		case strings.HasPrefix(tr, "jd2") && gen.Chance(t, "structuredDiff", 60):
+			// a well-formed native diff, often one the other format cannot express
+			sc := genC13Struct(t)
+			tc = TextCase{Text: specText(sc.Hunks), Target: sc.Target}
 		case strings.HasPrefix(tr, "patch"):
 			tc = genC13Patch(t)
 		case strings.HasPrefix(tr, "merge"):
